@@ -5,6 +5,14 @@ V = os.path.dirname(os.path.dirname(os.path.abspath(__file__)))
 
 # id -> (technique, level text, level note, design ref)
 CHECKS = {
+ "C16": ("exhaustive colours per slot x covering effect sets, all effect sets x covering colours, proptest random styles, per adapter; value-level oracle (independently typed mapping through the target library's constructors) and render-level oracle (target library's own output interpreted by the reference SGR interpreter)",
+         "Generated-input search with two oracles per adapter: equality with an independently constructed target value, and a round trip through the target library's own renderer into the reference SGR interpreter, compared with the input projected on an explicit table of what the target can express. All 16+256 colours and a 9^3 RGB lattice per slot and all 4096 effect sets are enumerated.",
+         "Trusted: the five third-party libraries' constructors/renderers (render layer only applied where the library renders the harness-built value as the projection predicts; owo-colors 4.0.0's missing ';' is documented and those cases are decided at value level), the expressibility table in the check.",
+         "DESIGN.md §4-C16"),
+ "C17": ("exhaustive 17x17 colour pairs x data x inner-writer plans (every data prefix, failure at each of the up to four inner writes) + proptest generated data/plans; framing oracle through the reference SGR interpreter and strip",
+         "Fault enumeration over a finite plan space (accept all / every prefix of the data / fail at inner write k with three error kinds) for all colour pairs, plus random escape-rich and long data. The output must decompose into SGR-only prefix setting exactly (fg,bg), the accepted data prefix verbatim, and an SGR-only suffix restoring the default state.",
+         "Trusted: reference SGR interpreter; std's write_all retry semantics (an interrupted code/reset write is retried by write! and is not expected to surface).",
+         "DESIGN.md §4-C17"),
  "C14": ("proptest grammar documents x palettes x default colours x background; independent strict XML parser + expat second opinion; text/line/height oracle from the reference VT parser; per-character presentation resolved through the style sheet vs the reference SGR interpreter",
          "Generated-input search with a validity-and-content oracle: every rendered document must parse with an XML 1.0 parser written for the check (and with expat), its foreground rows must spell the reference parser's visible text line by line, every class must be defined, and the CSS declarations reached through the classes must equal the reference terminal style (invert applied against the configured defaults, RGB through the published palettes / xterm formula).",
          "Trusted: XML/CSS readers in vcore/src/xml.rs, expat, R-VT/R-SGR, published palettes. Tolerated and documented: a literal CR is compared after XML end-of-line normalisation; the underline kind is read from rules without a colour; background-row width is not checked.",
@@ -63,7 +71,7 @@ CHECKS = {
          "DESIGN.md §3.1, §4-C02"),
 }
 
-CATEGORY = {"C06": "fault_enumeration"}
+CATEGORY = {"C06": "fault_enumeration", "C17": "fault_enumeration"}
 
 def entry(pid):
     tech, text, note, ref = CHECKS[pid]
